@@ -40,6 +40,13 @@ func init() {
 	r8Wrap("C03", r8C03)
 	r8Wrap("C12", r8C12)
 	r8Wrap("C06", r8C06)
+	r8Wrap("C09", r8H09B)
+	r8Wrap("C11", r8H09B)
+	replayers["H09B"] = func(c *ctx, in []string) {
+		h09Early = true
+		defer func() { h09Early = false }()
+		replayers["H09"](c, in)
+	}
 	r8Wrap("C20", r8C20)
 	replayers["C20H"] = func(c *ctx, in []string) {
 		a, _ := strconv.Atoi(in[0])
@@ -687,4 +694,18 @@ func r8C20(c *ctx) {
 			}
 		}
 	}
+}
+
+// r8-C11b: the HTTP upgrader when the HTTP server has already buffered client bytes behind the request head (request and
+// first frame in one segment): same outcome as when they arrive later (H09B, judged as H09)
+func r8H09B(c *ctx) {
+	h09Early = true
+	defer func() { h09Early = false }()
+	for _, v := range [][2]int{{1, 1}, {1, 0}} {
+		h09(c, "up", "GET", v[0], v[1], "example.com", mandMap(""), nil, nil, nil, nil)
+		h09(c, "ws", "GET", v[0], v[1], "example.com", mandMap(""), nil, nil, nil, nil)
+	}
+	h09(c, "up", "GET", 1, 1, "h", mandMap("Upgrade"), nil, nil, nil, nil)
+	sel := []string{"chat"}
+	h09(c, "up", "GET", 1, 1, "h", append(mandMap(""), hmEntry{"Sec-Websocket-Protocol", []string{"chat, superchat"}}), nil, &sel, nil, nil)
 }
